@@ -39,6 +39,8 @@ def gen_cases(ctx):
         inputs.append(dict(kind="late", name="late%d" % i, gseed=rng.randrange(1 << 30)))
     for i in range(8 if quick else 80):
         inputs.append(dict(kind="switch", name="switch%d" % i, gseed=rng.randrange(1 << 30)))
+    for i in range(6 if quick else 60):
+        inputs.append(dict(kind="spread", name="spread%d" % i, gseed=rng.randrange(1 << 30)))
     maxcuts = (10 if quick else 48)
     if ctx.params.get("cases"):
         maxcuts = max(1, ctx.params["cases"] // max(1, len(inputs)))
@@ -131,7 +133,40 @@ def print_switch_input(r):
     return t
 
 
+def spread_input(r):
+    """tab-delimited SOLUTION_SPREAD blocks whose rows may begin with an empty cell (a leading tab), lines with leading and trailing blanks, blank lines and
+    comment lines: the text must mean the same through RunString, RunFile and AccumulateLine"""
+    f = gens.fmt
+    cols = r.sample(["Ca", "Na", "Cl", "K", "Mg", "S(6)", "C(4)"], r.randint(3, 5)) + ["pH"]
+    r.shuffle(cols)
+    t = "SELECTED_OUTPUT 1\n -reset false\n -solution true\n -pH true\n -totals Ca Na Cl K Mg S(6) C(4)\n"
+    t += "SOLUTION_SPREAD\n -units mmol/kgw\n" + "\t".join(cols) + "\n"
+    nrow = r.randint(2, 4)
+    for k in range(nrow):
+        cells = []
+        for j, c in enumerate(cols):
+            if c == "pH":
+                cells.append(f(round(r.uniform(6, 8.5), 2)))
+            elif j == 0 and r.random() < 0.6:
+                cells.append("")                      # the row starts with a tab
+            elif r.random() < 0.15:
+                cells.append("")
+            else:
+                cells.append(f(gens.loguni(r, 0.05, 5)))
+        t += "\t".join(cells) + "\n"
+    t += "END\n"
+    for k in range(r.randint(2, 4)):
+        lead = r.choice(["", " ", "\t", "   "])
+        t += "%sUSE solution %d   \n# comment %d\n\n%sREACTION %d\n\t%s 1\n  %s mmol\n" % (lead, r.randint(1, nrow), k, lead, k + 1, r.choice(["NaCl", "HCl", "CaCl2"]), f(gens.loguni(r, 0.05, 2)))
+        if r.random() < 0.5:
+            t += "SAVE solution %d\n" % r.randint(1, nrow)
+        t += "END\n"
+    return t
+
+
 def _input_text(ctx, inp):
+    if inp["kind"] == "spread":
+        return spread_input(ctx.rng("spread", inp["gseed"])), os.path.join(ctx.db, "phreeqc.dat")
     if inp["kind"] == "switch":
         return print_switch_input(ctx.rng("switch", inp["gseed"])), os.path.join(ctx.db, "phreeqc.dat")
     if inp["kind"] == "example":
